@@ -96,6 +96,15 @@ CHECKS.update({
          "Every pickle protocol, copy and deepcopy of mpf/mpc values (specials, long mantissas, huge exponents) and copies of mixed matrices: identical raw tuples, same type, equal; mutation independence both ways.",
          "Matrix pickling is not supported by the class and is read as outside the statement (copying of matrices is covered).", "DESIGN.md §4 C40"),
 })
+CHECKS.update({
+ "C07": (EX, "TLC trace validation: the spec parses the literal's bytes (DecPost!DecVal), forms 5^|E| on limbs and checks the rounding cell / side of the result",
+         "Literals derived from p-bit grid and tie points (exact decimal expansions truncated or bumped late), random literals, huge exponents and p/q strings through "
+         "libmp.from_str (all modes), mpf(str) and iv.mpf(str); correct rounding inside 10^-100..10^100 and wrong-side freedom for every literal.",
+         TRACE_NOTE + " The range test is decided conservatively from the digit count.", "DESIGN.md §4 C07"),
+ "C08": (EX, "TLC trace validation: printed bytes parsed by the spec; repr round trip (rounding cell of the parsed value) and nearest-n-digit inequalities, exact",
+         "repr/str/nstr/to_str of values within a few ulps of n-digit decimals and of midpoints between them, long mantissas, huge exponents, all formatting options.",
+         TRACE_NOTE, "DESIGN.md §4 C08"),
+})
 
 ALL = ["C%02d" % i for i in range(1, 44)]
 NOT_APPLICABLE = {
